@@ -114,6 +114,25 @@ func (fr *frame) schedPoint(kind string) {
 	s.switchTo(me, others[c-1])
 }
 
+// pausePoint models a long-running stretch of code (nd.Pause): any other
+// enabled goroutine may run here; the switch does not count as a preemption.
+func (fr *frame) pausePoint() {
+	s := fr.p.sched
+	if !s.explore || len(s.gs) == 1 {
+		return
+	}
+	me := fr.g
+	others := s.othersEnabled(me)
+	if len(others) == 0 {
+		return
+	}
+	c := fr.p.choose("sched", 1+len(others))
+	if c == 0 {
+		return
+	}
+	s.switchTo(me, others[c-1])
+}
+
 // block parks the current goroutine until pred holds.
 func (fr *frame) blockOn(pred func() bool, desc string) {
 	s := fr.p.sched
